@@ -58,6 +58,15 @@ type trFunc struct {
 	oracleUsed  map[string]bool
 	keyOverride map[types.Object]string // parameter -> key of funcs.json/types (funcSpec.ParamTypes)
 	freeU256    bool                    // no in-place uint256 operation on a variable / field: pointer copies are harmless
+	// round 3 (translate_ctrl.go)
+	funcLocals   map[types.Object]*funcLocal
+	xUses        map[*ast.Ident]types.Object
+	xTypes       map[ast.Expr]types.Type
+	closure      []closureCtx
+	oracleOnly   map[types.Object]bool
+	returnsFresh bool
+	detached     map[types.Object]bool
+	neverNil     int
 }
 
 func newTrFunc(tr *translator, node *FuncNode, spec *funcSpec, info *types.Info) *trFunc {
@@ -67,7 +76,9 @@ func newTrFunc(tr *translator, node *FuncNode, spec *funcSpec, info *types.Info)
 		assigned: map[types.Object]bool{}, rangeVal: map[types.Object]bool{}, writeBack: map[*ast.RangeStmt]string{},
 		alias: map[types.Object]*aliasInfo{}, aliasBind: map[ast.Stmt]*aliasInfo{}, synth: map[*ast.SelectorExpr]bool{},
 		touch: map[types.Object]map[string]bool{}, writes: map[types.Object]map[string]bool{}, oracleUsed: map[string]bool{},
-		keyOverride: map[types.Object]string{}}
+		keyOverride: map[types.Object]string{},
+		funcLocals: map[types.Object]*funcLocal{}, xUses: map[*ast.Ident]types.Object{}, xTypes: map[ast.Expr]types.Type{},
+		oracleOnly: map[types.Object]bool{}, detached: map[types.Object]bool{}}
 }
 
 func (f *trFunc) problem(n ast.Node, format string, args ...interface{}) {
@@ -130,6 +141,9 @@ func (f *trFunc) tmp(prefix string) string {
 func (f *trFunc) objOf(e ast.Expr) types.Object {
 	e = ast.Unparen(e)
 	if id, ok := e.(*ast.Ident); ok {
+		if o, ok := f.xUses[id]; ok {
+			return o
+		}
 		if o := f.info.Uses[id]; o != nil {
 			return o
 		}
@@ -149,6 +163,9 @@ func (f *trFunc) isNil(e ast.Expr) bool {
 }
 
 func (f *trFunc) typeOf(e ast.Expr) types.Type {
+	if t, ok := f.xTypes[e]; ok {
+		return t
+	}
 	if tv, ok := f.info.Types[e]; ok {
 		return tv.Type
 	}
@@ -273,6 +290,7 @@ func (f *trFunc) analyse() {
 	sig := f.node.Obj.Type().(*types.Signature)
 	nres := sig.Results().Len()
 	f.resOpt = make([]bool, nres)
+	f.findFuncLocals()
 	markOpt := func(o types.Object) bool {
 		if o == nil || f.opt[o] || !isStructPtr(o.Type()) {
 			return false
@@ -312,13 +330,18 @@ func (f *trFunc) analyse() {
 						}
 					}
 					if c, ok := ast.Unparen(s.Rhs[0]).(*ast.CallExpr); ok {
-						if g, _ := f.callee(c); g != nil && len(g.resOpt) == len(s.Lhs) {
+						if op, _ := f.ledgerCallOp(c); op != nil && (op.op == "get" || op.op == "del") && len(s.Lhs) == 2 {
+							changed = markOpt(f.objOf(s.Lhs[0])) || changed
+						} else if g, _ := f.callee(c); g != nil && len(g.resOpt) == len(s.Lhs) {
 							for i, l := range s.Lhs {
 								if g.resOpt[i] {
 									changed = markOpt(f.objOf(l)) || changed
 								}
 							}
 						}
+					}
+					if _, ok := ast.Unparen(s.Rhs[0]).(*ast.TypeAssertExpr); ok && len(s.Lhs) == 2 {
+						changed = markOpt(f.objOf(s.Lhs[0])) || changed
 					}
 				}
 			case *ast.BinaryExpr:
@@ -404,6 +427,7 @@ func (f *trFunc) analyse() {
 		}
 		return true
 	})
+	f.markCtrlMutations(markMut)
 	// write-back loops: the range value variable is mutated
 	ast.Inspect(body, func(n ast.Node) bool {
 		r, ok := n.(*ast.RangeStmt)
@@ -492,6 +516,8 @@ func (f *trFunc) analyse() {
 		}
 		return true
 	})
+	f.findOracleOnly()
+	f.computeReturnsFresh()
 	f.findAliases()
 	for _, p := range f.params {
 		if f.mutated[p] {
@@ -638,6 +664,9 @@ func (f *trFunc) checkAliasing() {
 			if st, ok := at.(ast.Stmt); ok && f.aliasBind[st] != nil && f.aliasBind[st].obj == o {
 				return // a pointer to an element, written back after every write (translate_alias.go)
 			}
+			if c, isCall := ast.Unparen(r).(*ast.CallExpr); isCall && f.isFreshCall(c) {
+				return
+			}
 			if !isFreshExpr(r) && !f.isNil(r) {
 				f.problem(at, "`%s` is mutated but bound to `%s`, which may alias another object", o.Name(), f.src(r))
 			}
@@ -655,6 +684,11 @@ func (f *trFunc) checkAliasing() {
 					if o := f.objOf(l); o != nil && f.mutated[o] && !isParam[o] && isStructPtr(o.Type()) {
 						if a := f.aliasBind[s]; a != nil && a.obj == o {
 							continue
+						}
+						if c, isCall := ast.Unparen(s.Rhs[0]).(*ast.CallExpr); isCall && len(s.Rhs) == 1 {
+							if op, _ := f.ledgerCallOp(c); op != nil && (op.op == "get" || op.op == "del") {
+								continue // a private copy (header of the generated file): written back by Set only
+							}
 						}
 						f.problem(s, "`%s` is mutated but bound to a call result, which may alias another object", o.Name())
 					}
@@ -712,6 +746,24 @@ func (f *trFunc) checkAliasing() {
 			if g, _ := f.callee(p); g != nil {
 				return true // passed to a whitelisted callee (threaded when it mutates)
 			}
+			if op := f.isLedgerWrite(p); op != nil && op.op == "set" {
+				// the ledger keeps the pointer: no change of the object may follow
+				if f.mutatedAfter(o, p.End()) {
+					f.problem(id, "`%s` is changed after it was handed to the ledger by `%s` (the ledger would see the change)", o.Name(), f.src(p))
+				}
+				return true
+			}
+			if fl := f.flOf(p); fl != nil {
+				allOK := len(fl.alts) > 0
+				for _, a := range fl.alts {
+					if f.calleeOfSel(a) == nil {
+						allOK = false
+					}
+				}
+				if allOK {
+					return true
+				}
+			}
 		}
 		if wbVar[o] != nil && escapeOK(o, stack[:len(stack)-1]) {
 			f.hasEscape = true
@@ -757,7 +809,7 @@ func (f *trFunc) translate() {
 	// signature
 	var ps []string
 	for _, p := range f.params {
-		if isSyncType(p.Type()) {
+		if isSyncType(p.Type()) || f.tr.isOpaqueIface(p.Type()) {
 			continue
 		}
 		n := f.nameOf(p)
@@ -822,6 +874,18 @@ func (f *trFunc) translate() {
 			}
 		}
 	}
+	if f.spec.OracleFuncs != nil {
+		var ks []string
+		for k := range f.spec.OracleFuncs {
+			ks = append(ks, k)
+		}
+		sort.Strings(ks)
+		for _, k := range ks {
+			if !f.oracleUsed["fn:"+k] {
+				f.problem(nil, "oracle function `%s` of funcs.json is not called in the function", k)
+			}
+		}
+	}
 	f.sigText = fmt.Sprintf("%s %s : G %s", f.spec.Lean, strings.Join(ps, " "), f.retType)
 	var doc strings.Builder
 	doc.WriteString(fmt.Sprintf("/-- `%s` of rigo-go", f.spec.key()))
@@ -834,6 +898,9 @@ func (f *trFunc) translate() {
 	}
 	if f.arith > 0 {
 		doc.WriteString(fmt.Sprintf("; %d signed + - * site(s) taken without int64 overflow", f.arith))
+	}
+	if f.neverNil > 0 {
+		doc.WriteString(fmt.Sprintf("; %d nil test(s) of a pointer field taken as never nil", f.neverNil))
 	}
 	for _, e := range f.extras {
 		doc.WriteString(fmt.Sprintf("; parameter %s = %s", e.name, e.origin))
@@ -877,6 +944,19 @@ func terminates(list []ast.Stmt) bool {
 		}
 	case *ast.BlockStmt:
 		return terminates(s.List)
+	case *ast.SwitchStmt:
+		// every clause terminates and there is a default clause (no break: refused elsewhere)
+		hasDefault := false
+		for _, c := range s.Body.List {
+			cc, ok := c.(*ast.CaseClause)
+			if !ok || !terminates(cc.Body) {
+				return false
+			}
+			if cc.List == nil {
+				hasDefault = true
+			}
+		}
+		return hasDefault
 	case *ast.IfStmt:
 		if s.Else == nil {
 			return false
